@@ -8,8 +8,17 @@ use crate::util::Rng;
 const ALPHA: &[char] = &['a', 'b', 'あ', 'い', '漢', '1', 'カ'];
 const TAGS: &[&[&str]] = &[&["名", "動", "助"], &["x", "y/z", "w v"], &["P", "Q"]];
 
+/// every fifth case draws its characters from white space of all kinds and other special scalar values (as corpus
+/// characters, as tokens of their own and as dictionary words): a word is a word whatever it is made of
+const WS_ALPHA: &[char] = &['\u{3000}', '\u{a0}', ' ', '\t', '\u{2028}', '\u{feff}', 'a', 'あ', '\u{200b}', '\u{85}'];
+
+thread_local! {
+    static CUR_ALPHA: std::cell::Cell<&'static [char]> = const { std::cell::Cell::new(ALPHA) };
+}
+
 fn word(r: &mut Rng, min: usize, max: usize) -> String {
-    (0..r.range(min as i64, max as i64)).map(|_| *r.pick(ALPHA)).collect()
+    let alpha = CUR_ALPHA.with(|a| a.get());
+    (0..r.range(min as i64, max as i64)).map(|_| *r.pick(alpha)).collect()
 }
 
 fn esc(s: &str) -> String {
@@ -114,6 +123,7 @@ pub fn gen(out: &mut dyn Write, family: &str, thorough: bool, seed: u64) {
     // the configurations that failed on the pinned tree come first
     let mut fixed: Vec<(u8, u8, u8, u8)> = vec![(3, 2, 1, 1), (2, 2, 3, 2), (1, 3, 1, 3), (2, 3, 1, 1), (0, 0, 0, 0), (1, 0, 0, 1)];
     for i in 0..n {
+        CUR_ALPHA.with(|a| a.set(if i % 5 == 3 { WS_ALPHA } else { ALPHA }));
         let vocab: Vec<String> = (0..r.range(2, 6)).map(|_| word(&mut r, 1, 3)).collect();
         let (cw, cn, tw, tn) = if let Some(c) = fixed.pop() {
             c
@@ -174,6 +184,7 @@ pub fn gen(out: &mut dyn Write, family: &str, thorough: bool, seed: u64) {
         };
         writeln!(out, "{}", c.to_line(oracle)).unwrap();
     }
+    CUR_ALPHA.with(|a| a.set(ALPHA));
     // scale: sizes at which narrow integer types inside the trainer would wrap
     let tok_line = |r: &mut Rng, n_chars: usize, alpha: &[char]| -> String {
         let mut s = String::new();
